@@ -293,6 +293,9 @@ func (p *Prog) symLoad(ld *ssa.UnOp) *Sym {
 				return s
 			}
 		}
+		if d := p.derivedLoad(a); d != nil {
+			return d
+		}
 		return p.Sym(a) // "x.f" denotes content
 	case *ssa.IndexAddr:
 		return p.Sym(a)
